@@ -67,7 +67,10 @@ def als_case(draw):
          'n_prev': draw(st.sampled_from([0, 0, 1, 2])), 'shift': draw(st.sampled_from([-1.0, 0.5, 2.0])),
          'sigma_mode': draw(st.sampled_from(['above', 'above', 'inside', 'default'])),
          'real': draw(st.sampled_from([True, True, False])), 'conv_eps': draw(st.sampled_from([0, 0, 0, 1e-9])),
-         'prev_norm': draw(st.sampled_from([1.0, 1.0, 0.4, 1.7, 2.5]))}
+         'prev_norm': draw(st.sampled_from([1.0, 1.0, 0.4, 1.7, 2.5])),
+         # an operator that is diagonal in the first mode, A = S (x) I + I (x) T: its eigentensors are e_k (x) v, with exact zeros in
+         # the leading entries unless k = 0
+         'diag_first_mode': draw(st.sampled_from([False, False, False, False, True]))}
     if c['guess'] == 'admissible':
         c['ranks'] = admissible(draw, dims, lo=2)
     if c['n_prev']:
@@ -95,6 +98,14 @@ def setup(c):
     lam = spectrum(rng, N)
     A = dense.herm(rng, N, cplx, lam)
     A = (A + A.conj().T) / 2
+    if c.get('diag_first_mode') and d >= 2 and not c['gevp'] and not c.get('prev_ranks') and dims[0] >= 2:
+        n1, n2 = dims[0], N // dims[0]
+        sdiag = np.sort(rng.uniform(0.0, 1.0, n1))
+        sdiag[-1] = sdiag[-2] + 0.3
+        sdiag = np.roll(sdiag, int(rng.integers(0, n1 - 1)))          # the largest entry is not the first one
+        T = dense.herm(rng, n2, cplx, spectrum(rng, n2))
+        T = (T + T.conj().T) / 2
+        A = np.kron(np.diag(sdiag), np.eye(n2)) + np.kron(np.eye(n1), T)
     B = None
     if c['gevp']:
         B = dense.herm(rng, N, cplx, np.exp(rng.uniform(0, np.log(10.0), N)))
@@ -159,6 +170,8 @@ def body_als(c):
         assume(min(g.ranks[i] * dims[i] * g.ranks[i + 1] for i in range(d)) >= 3)
     snaps = [(t, build.snapshot(t)) for t in [op, g] + prev + ([opB] if opB is not None else [])]
     lab = {solver, 'guess_' + c['guess'], 'sigma_' + c['sigma_mode'], 'nev%d' % nev}
+    if c.get('diag_first_mode') and len(c['dims']) >= 2 and not c['gevp'] and not c.get('prev_ranks') and c['dims'][0] >= 2:
+        lab.add('operator_diagonal_in_first_mode')
     if c['cplx']:
         lab.add('complex')
     if not c.get('real', True):
